@@ -92,5 +92,6 @@ package goja
 
 //@ func (*Runtime).arrayproto_pop
 //@   props C07
+//@   timeout 60
 //@   exitvars a *arrayObject
 //@   ensures @denseTailNil [tail-stays-nil]
